@@ -7,4 +7,4 @@ GO=go1.26.8
 command -v $GO >/dev/null 2>&1 || GO=/opt/veriftools/go1.26.8/bin/go
 mkdir -p "$VERIF_DIR/bin" "$VERIF_DIR/evidence" "$VERIF_DIR/replays"
 cd "$VERIF_DIR/sim" || exit 2
-$GO build -tags verif -o "$VERIF_DIR/bin/vcheck" ./cmd/vcheck
+$GO test -c -vet=off -tags verif -o "$VERIF_DIR/bin/vcheck" ./cmd/vcheck
